@@ -394,6 +394,7 @@ func runDecode(c *Ctx) {
 	emit(decodeCase{Kind: "corpus", Doc: hx("version: '3'\ntasks:\n  t:\n    sources:\n      - \n"), Note: "nil glob entry"})
 	emit(decodeCase{Kind: "corpus", Doc: hx("version: '3'\ntasks:\n  t:\n    requires: {vars: [A, ~]}\n    cmds: [echo]\n"), Note: "nil requires entry (crashed when the task was run)"})
 	emit(decodeCase{Kind: "corpus", Doc: hx("version: '3'\ntasks:\n  t:\n    platforms: [~]\n    cmds: [echo]\n  u:\n    cmds:\n      - cmd: echo\n        platforms: [~]\n"), Note: "nil platform entry at task and command level (crashed when the task was run)"})
+	emit(decodeCase{Kind: "corpus", Doc: hx("version: '3'\ntasks:\n  t:\n    vars: {X: {sh: 'test ! -e flag && touch flag && echo {{now.UnixNano}}'}}\n    cmds: [{defer: 'echo d2'}, {defer: 'echo d1'}, 'echo body']\n"), Note: "sh: variable that succeeds when the task is compiled and fails when runDeferred evaluates the variables again (its text changes, so the cache does not hold it): crashed with a nil variable set"})
 	emit(decodeCase{Kind: "corpus", Doc: hx("version: '3'\nvars:\n  A: 2024-01-01\ntasks: {t: {cmds: ['echo {{.A}}']}}\n"), Note: "timestamp variable"})
 	emit(decodeCase{Kind: "corpus", Doc: hx("version: '3'\ntasks: {build: {cmds: [echo]}}\n"), Req: strings.Repeat("a", 2500), Note: "very long unknown task name (did-you-mean lookup is cubic in the length)"})
 	emit(decodeCase{Kind: "corpus", Doc: hx("version: '3'\ntasks: {build: {aliases: [b], cmds: [echo]}}\n"), Req: strings.Repeat("build", 400), Note: "very long unknown task name made of a known one"})
